@@ -1,5 +1,6 @@
 import Driver.Common
-/-! Driver of the `conc` family (stub: no stream yet). -/
+import Driver.Conc
+/-! Driver of the `conc` family (C28): stream `conc` = linearizability judge. -/
 
 def main (args : List String) : IO UInt32 :=
-  Drv.mainWith [] args
+  Drv.mainWith [("conc", Drv.Conc.stream)] args
